@@ -963,8 +963,14 @@ def scripted_single(ctx, n):
         return np.array(theta, dtype=float), chi2, np.full(int(max_param * (max_param + 1) / 2), np.nan), state["cl"]
 
     ops, real, meta = [], [], []
-    real_min, real_cp = ta.minimize, fs.convert_params
-    ta.minimize, fs.convert_params = oracle, recorder
+    # the Fisher routine wherever fit_single can reach it (module attribute and every global of fit_single bound to it), as _Trace does
+    import esr.fitting.test_all_Fisher as taf
+    real_min, real_cp = ta.minimize, taf.convert_params
+    undo = [(ta, "minimize", real_min), (taf, "convert_params", real_cp)]
+    ta.minimize, taf.convert_params = oracle, recorder
+    for k_, v_ in list(vars(fs).items()):
+        if v_ is real_cp:
+            undo.append((fs, k_, real_cp)); setattr(fs, k_, recorder)
     try:
         for t in range(n):
             k = rng.choice([0, 1, 1, 2, 2, 2, 3])
@@ -992,7 +998,8 @@ def scripted_single(ctx, n):
             meta.append(dict(labels=labels, k=k, log_opt=lo, niter=niter, nconv=nconv, ncalls=ncalls, kind=script.kind))
             ctx.case(("scripted-single", ops[-1][:200]), nontrivial=ncalls > 0)
     finally:
-        ta.minimize, fs.convert_params = real_min, real_cp
+        for mod_, name_, orig_ in reversed(undo):
+            setattr(mod_, name_, orig_)
     outs = common.model(ops)
     same = c10._same
     bad = 0
